@@ -459,7 +459,7 @@ type sched struct {
 	classes [][][]string
 }
 
-const yieldCap = 400_000
+const yieldCap = 50_000_000
 
 func (s *sched) mix(task int, label string) {
 	h := fnv.New64a()
@@ -472,7 +472,7 @@ func (s *sched) yield(label, class string) {
 	t := s.tasks[s.cur]
 	s.yields++
 	if s.yields > yieldCap {
-		fatal2("watchdog: more than %d schedule points in one run (livelock?) plan=%s", yieldCap, planJSON(s.p))
+		fatal2("watchdog: more than %d schedule points in one run (livelock?) plan=%s", yieldCap, clip(string(planJSON(s.p)), 3000))
 	}
 	y := t.yieldInOp
 	t.yieldInOp++
